@@ -944,8 +944,26 @@ class Body:
             al = cs.arg_local(0)
             if al is None or depth > 6:
                 return origins
+            def payload_origins(l, depth):
+                # error payload `e` of an explicit Err(conv(e)): follow conversions back to `(r as Err).0`
+                if l is None or depth > 8:
+                    return
+                for o4 in self.trace_local(l):
+                    if o4[0] == 'call' and len(o4[1].args) >= 1:
+                        payload_origins(o4[1].arg_local(len(o4[1].args) - 1), depth + 1)
+                    elif o4[0] == 'place':
+                        result_origins(o4[2]['l'], depth + 1)
+                    elif o4[0] == 'rv' and o4[2]['k'] == 'agg' and o4[2].get('ops'):
+                        for oo in o4[2]['ops']:
+                            payload_origins(op_local(oo), depth + 1)
+
             def result_origins(l, depth):
+                if depth > 10:
+                    return
                 for o3 in self.trace_local(l):
+                    if o3[0] == 'rv' and o3[2]['k'] == 'agg' and o3[2].get('adt') == 'std::result::Result' and o3[2].get('variant') == 'Err' and o3[2].get('ops'):
+                        payload_origins(op_local(o3[2]['ops'][0]), depth + 1)
+                        continue
                     if o3[0] == 'call':
                         if 'FromResidual' in o3[1].name and o3[1].name.endswith('::from_residual'):
                             origins.extend(residual_origins(o3[1], depth + 1))
@@ -994,6 +1012,27 @@ class Body:
         out = [e for e in out if self.is_live_point(e['point'])]
         self._exits = out
         return out
+
+    def err_exit_origin(self, e):
+        """For an explicit `Err(..)` exit: the call whose failure it reports, i.e. the latest call whose
+        Err/None edge (through `?` or a match on its result) dominates the exit. None for a free-standing reject."""
+        cache = self.__dict__.setdefault('_err_origin', {})
+        if e['point'] in cache:
+            return cache[e['point']]
+        best = None
+        for cs in self.calls:
+            dl = cs.dest_local()
+            if dl is None or cs.name.endswith('::branch') or 'FromResidual' in cs.name:
+                continue
+            ty = self.local_ty(dl)
+            if not (ty.startswith('std::result::Result<') or ty.startswith('std::option::Option<')):
+                continue
+            re_ = result_edges(self, dl)
+            if any(self.edge_dominates(ed, e['point']) for ed in re_['err']):
+                if best is None or self.dominates(best.point, cs.point):
+                    best = cs
+        cache[e['point']] = best
+        return best
 
     def ok_exits(self):
         """Points after which the function returns successfully (Ok / forward / non-Result value)."""
